@@ -47,5 +47,5 @@ def main : IO Unit := do
   | some (.list [.atom "model", .atom "savesteps"]) =>
     loop h out () SaveSteps.driverStep ()
   | some (.list [.atom "model", .atom "ext"]) =>
-    loop h out ({} : Ext.State) Ext.driverStep {}
+    loop h out ({} : Ext.DState) Ext.driverStep {}
   | _ => out.putStrLn "unknown-model"
